@@ -701,7 +701,7 @@ impl Engine for Net {
         "net"
     }
     fn serves(&self) -> &'static [&'static str] {
-        &["C02", "C03", "C04", "C06", "C11", "C16", "C19"]
+        &["C02", "C03", "C04", "C06", "C11", "C12", "C16", "C19"]
     }
     fn isolated(&self) -> bool {
         true
@@ -1097,6 +1097,7 @@ impl Engine for Net {
             }
             if let Some((m, p)) = open.iter().next() {
                 out.monitor.push(("C04".into(), format!("every call returned Ok but the handler of model {m} for message {p} never finished")));
+                out.monitor.push(("C12".into(), format!("every call returned Ok (no message is counted in flight) but the handler of model {m} for message {p} is still suspended on a channel operation: a sender waiting for space (or a receiver waiting for a message) was never resumed although the condition it waits for became true")));
             }
             if let Some(v) = causal_violation(&specs, &all_recs) {
                 out.monitor.push(("C02".into(), v));
